@@ -233,6 +233,8 @@ def eng_forms(pid, tier, wd, known, replay=None):
         fs = [f for f in fs if f["name"].startswith(("value", "ifacevalue"))]
     elif pid == "C11":
         fs = [f for f in fs if f["name"].startswith("bind")]
+    elif pid == "C06":
+        fs = [f for f in fs if f["name"].startswith(("bind", "struct", "fields"))]
     elif pid == "C12":
         fs = [f for f in fs if f["name"].startswith(("struct", "fields"))]
     if replay is not None and replay.get("input", {}).get("form"):
